@@ -133,6 +133,23 @@ func (g *Generator) NewSchemaRefForValue(value any, schemas openapi3.Schemas) (*
 	if err != nil {
 		return nil, err
 	}
+	// a reference that cuts a cycle carries the schema of the place where the cycle was met (for a
+	// struct met again below a slice or a map: the slice's or the map's); the component it names is
+	// the schema generated for the named type itself
+	own := make(map[string]*openapi3.Schema, len(g.Types))
+	for t, ref := range g.Types {
+		named, direct := t, true
+		for named.Kind() == reflect.Ptr {
+			named, direct = named.Elem(), false
+		}
+		if named.Name() == "" || ref.Value == nil {
+			continue
+		}
+		// the schema generated for T itself is preferred to the one generated for *T
+		if _, ok := own[g.generateTypeName(named)]; direct || !ok {
+			own[g.generateTypeName(named)] = ref.Value
+		}
+	}
 	for ref := range g.SchemaRefs {
 		refName := ref.Ref
 		if g.opts.exportComponentSchemas.ExportComponentSchemas && strings.HasPrefix(refName, "#/components/schemas/") {
@@ -140,9 +157,13 @@ func (g *Generator) NewSchemaRefForValue(value any, schemas openapi3.Schemas) (*
 		}
 
 		if _, ok := g.componentSchemaRefs[refName]; ok && schemas != nil {
-			if ref.Value != nil && (ref.Value.Properties != nil || ref.Value.Items != nil || ref.Value.AdditionalProperties.Schema != nil) {
+			value := ref.Value
+			if v, ok := own[refName]; ok {
+				value = v
+			}
+			if value != nil && (value.Properties != nil || value.Items != nil || value.AdditionalProperties.Schema != nil) {
 				schemas[refName] = &openapi3.SchemaRef{
-					Value: ref.Value,
+					Value: value,
 				}
 			}
 		}
